@@ -412,3 +412,32 @@ VARIANTS += [
  dict(name='missing-is-plain-error', file=C, expect='flagged(get/missing-is-miss)', find='\t\t\treturn nil, corecrl.ErrCacheMiss\n\t\t}\n\t\treturn nil, fmt.Errorf("failed to get crl',
       replace='\t\t\treturn nil, errors.New("no entry")\n\t\t}\n\t\treturn nil, fmt.Errorf("failed to get crl'),
 ]
+
+# ---- third pass: the read step of Get in a helper of the package (extract-helper at the read boundary)
+READ_OLD = ('\tcontentBytes, err := os.ReadFile(filepath.Join(c.root, c.fileName(url)))\n\tif err != nil {\n\t\tif errors.Is(err, fs.ErrNotExist) {\n\t\t\tlogger.Debugf("CRL file cache miss. Key %q does not exist", url)\n\t\t\treturn nil, corecrl.ErrCacheMiss\n\t\t}\n'
+            '\t\treturn nil, fmt.Errorf("failed to get crl bundle from file cache with key %q: %w", url, err)\n\t}\n')
+def read_helper(call='\tcontentBytes, err := c.readEntry(logger, url)\n\tif err != nil {\n\t\treturn nil, err\n\t}\n', body=READ_OLD, ret='\treturn contentBytes, nil\n', imports=None):
+    e = [(C, READ_OLD, call), (C, SET_DOC, '// readEntry reads the entry stored for url\nfunc (c *FileCache) readEntry(logger log.Logger, url string) ([]byte, error) {\n' + body + ret + '}\n\n' + SET_DOC)]
+    if imports:
+        e.append((C, '\t"path/filepath"\n', '\t"path/filepath"\n' + imports))
+    return e
+VARIANTS += [
+ dict(name='benign-get-read-helper', expect='silent', edits=read_helper(),
+      why='the one read stands in a helper called once: its path reads Join(root, key(url)) with the helper\'s parameters replaced by Get\'s arguments, its error is a gate of every success of Get, the miss it returns is handed on by Get unchanged'),
+ dict(name='benign-get-read-helper-get-wraps-error', expect='silent',
+      edits=read_helper(call='\tcontentBytes, err := c.readEntry(logger, url)\n\tif err != nil {\n\t\treturn nil, fmt.Errorf("crl file cache: %w", err)\n\t}\n'),
+      why='%w keeps the sentinel reachable for errors.Is'),
+ dict(name='benign-get-read-helper-params-swapped', expect='silent',
+      edits=[(C, READ_OLD, '\tcontentBytes, err := c.readEntry(url, logger)\n\tif err != nil {\n\t\treturn nil, err\n\t}\n'),
+             (C, SET_DOC, '// readEntry reads the entry stored for key\nfunc (c *FileCache) readEntry(key string, logger log.Logger) ([]byte, error) {\n' + READ_OLD.replace('url', 'key') + '\treturn contentBytes, nil\n}\n\n' + SET_DOC)]),
+ dict(name='read-helper-miss-lost-in-get', expect='flagged(get/missing-is-miss)',
+      edits=read_helper(call='\tcontentBytes, err := c.readEntry(logger, url)\n\tif err != nil {\n\t\treturn nil, fmt.Errorf("crl file cache: %v", err)\n\t}\n')),
+ dict(name='read-helper-miss-is-plain-error', expect='flagged(get/missing-is-miss)', edits=read_helper(body=READ_OLD.replace('return nil, corecrl.ErrCacheMiss', 'return nil, errors.New("no entry")'))),
+ dict(name='read-helper-reads-key-of-lowered-url', expect='flagged(confinement/Get)', edits=read_helper(body=READ_OLD.replace('c.fileName(url)', 'c.fileName(strings.ToLower(url))'), imports='\t"strings"\n')),
+ dict(name='read-helper-fed-trimmed-url', expect='flagged(confinement/Get)',
+      edits=read_helper(call='\tcontentBytes, err := c.readEntry(logger, strings.TrimSpace(url))\n\tif err != nil {\n\t\treturn nil, err\n\t}\n', imports='\t"strings"\n')),
+ dict(name='read-helper-reads-url-as-path', expect='flagged(confinement/Get)', edits=read_helper(body=READ_OLD.replace('filepath.Join(c.root, c.fileName(url))', 'filepath.Join(c.root, url)'))),
+ dict(name='read-helper-error-ignored-by-get', expect='flagged(get/read-error)', edits=read_helper(call='\tcontentBytes, _ := c.readEntry(logger, url)\n\tvar err error\n')),
+ dict(name='read-helper-swallows-read-error', expect='flagged(get/read-error)',
+      edits=read_helper(body=READ_OLD.replace('\t\treturn nil, fmt.Errorf("failed to get crl bundle from file cache with key %q: %w", url, err)\n', '\t\tlogger.Debugf("read of %q failed: %v", url, err)\n'))),
+]
